@@ -92,7 +92,30 @@ namespace verif
             for (auto& h : r.headers)
                 b.header(h.h);
             for (auto& ck : r.cookies)
-                b.cookie(Cookie(ck.first, ck.second));
+            {
+                // A cookie object handed to the request builder may carry attributes (a client echoing
+                // back what it got in a Set-Cookie): only its name=value pair belongs in the Cookie header.
+                // Derived from the pair itself (no further choice consumed): about half of the cookies
+                // get some attributes; what the server must see does not change.
+                Cookie k(ck.first, ck.second);
+                uint64_t h = fnv1a(ck.first + "\x01" + ck.second);
+                if (h & 1)
+                {
+                    if (h & 2)
+                        k.path = std::string("/app");
+                    if (h & 4)
+                        k.domain = std::string("example.com");
+                    if (h & 8)
+                        k.maxAge = int((h >> 8) % 100000);
+                    if (h & 16)
+                        k.secure = true;
+                    if (h & 32)
+                        k.httpOnly = true;
+                    if (h & 64)
+                        k.ext.insert({ "SameSite", "Lax" });
+                }
+                b.cookie(k);
+            }
             if (!r.body.empty())
                 b.body(r.body);
             if (timeout_ms)
